@@ -234,6 +234,34 @@ func (x *Exec) globalVar(st *State, o *types.Var) *Value {
 	if v, ok := st.globals[key]; ok {
 		return v
 	}
+	if v, ok := st.globals["const."+key]; ok {
+		return v
+	}
+	if init := x.eng.immutableInit(o); init != nil && x.inlineDepth < 12 {
+		// never assigned anywhere in the package: its value is its initializer
+		savedSpec := x.spec
+		x.spec = 0
+		x.noSafety++
+		x.inlineDepth++
+		before := map[string]*Term{}
+		for k, a := range st.heap {
+			before[k] = a
+		}
+		iv := x.coerce(st, x.eval(st, init), o.Type())
+		for k, a := range st.heap {
+			if before[k] != a {
+				x.initKeys[k] = true
+			}
+		}
+		x.inlineDepth--
+		x.noSafety--
+		x.spec = savedSpec
+		if iv.L == nil {
+			iv = x.convertConst(iv, o.Type())
+		}
+		st.globals["const."+key] = iv
+		return iv
+	}
 	v := &Value{T: o.Type(), L: map[string]*Term{}}
 	for _, l := range x.leavesOf(o.Type()) {
 		v.L[l.path] = x.b.Var(join("G0."+key, l.path), l.sort)
@@ -1264,16 +1292,19 @@ func (x *Exec) mapLoad(st *State, m *Value, u *types.Map, k *Value) *Value {
 }
 
 func (x *Exec) mapStore(st *State, m *Value, u *types.Map, k, val *Value, at ast.Node) {
+	// inserting a key whose dynamic type is not hashable panics
+	for p, t := range k.L {
+		if p == "tag" || strings.HasSuffix(p, ".tag") {
+			x.useHashable = true
+			x.safety(st, "hashable-key", at, x.b.App("hashable", BoolSort, t))
+		}
+	}
+	x.safety(st, "nilmap", at, x.b.Neq(m.scalar(), x.b.Int(0)))
 	kt, ok := x.mapKeyTerm(k)
 	if !ok {
 		x.note("map-with-composite-key")
 		return
 	}
-	if kindOf(u.Key()) == kIface {
-		// unhashable dynamic key panics
-		x.note("map-insert-interface-key")
-	}
-	x.safety(st, "nilmap", at, x.b.Neq(m.scalar(), x.b.Int(0)))
 	dk := mapKeyName(u) + ".dom"
 	domA := x.mapDom(st, u, kt.Sort)
 	st.heap[dk] = x.b.Store(domA, m.scalar(), x.b.Store(x.b.Select(domA, m.scalar()), kt, x.b.True()))
